@@ -115,7 +115,9 @@ func (h *handler) getExpand(w http.ResponseWriter, r *http.Request, _ httprouter
 func (h *handler) Expand(ctx context.Context, req *rts.ExpandRequest) (*rts.ExpandResponse, error) {
 	var subSet *ketoapi.SubjectSet
 
-	switch sub := req.Subject.Ref.(type) {
+	switch sub := req.GetSubject().GetRef().(type) {
+	case nil:
+		return nil, ketoapi.ErrNilSubject
 	case *rts.Subject_Id:
 		return &rts.ExpandResponse{
 			Tree: &rts.SubjectTree{
@@ -125,9 +127,9 @@ func (h *handler) Expand(ctx context.Context, req *rts.ExpandRequest) (*rts.Expa
 		}, nil
 	case *rts.Subject_Set:
 		subSet = &ketoapi.SubjectSet{
-			Namespace: sub.Set.Namespace,
-			Object:    sub.Set.Object,
-			Relation:  sub.Set.Relation,
+			Namespace: sub.Set.GetNamespace(),
+			Object:    sub.Set.GetObject(),
+			Relation:  sub.Set.GetRelation(),
 		}
 	}
 
